@@ -277,6 +277,26 @@ def check_cli_resolver(ctx):
                        "resolved keys are filtered by package name only: a missing version of a package whose other version was found is neither reported nor looked up further",
                        site="%s in %s" % (t.span, f.id))
     ctx.ob("R18.6", "count", n >= 1, "retain filters inspected: %d" % n, nontrivial=False)
+    # the overrides the caller passes are the overrides the file-system resolver gets: nothing on the way may drop or
+    # rewrite entries (a `--dep` whose path is missing must reach the resolver, which reports it)
+    for f in db.fns.values():
+        if not f.id.startswith("wac_cli::PackageResolver::new"):     # (an async fn: the body is its coroutine `{closure#0}`)
+            continue
+        ctx.touch(f)
+        for t in f.calls():
+            if not (t.path or "").endswith("fs::FileSystemPackageResolver::new"):
+                continue
+            for i, a in enumerate(t.args):
+                if a.place is None or "HashMap" not in f.local_ty(a.place.local):
+                    continue
+                sl = prov.slice(f, a)
+                narrowed = sorted({(x.path or "").rsplit("::", 1)[-1] for _, x in sl.calls} & {"filter", "filter_map", "retain", "skip", "take", "flat_map", "take_while", "skip_while", "remove", "drain", "extract_if"})
+                rebuilt = sorted({(x.path or "").rsplit("::", 1)[-1] for _, x in sl.calls} & {"collect", "from_iter", "into_iter", "iter", "extend", "insert"})
+                direct = not rebuilt
+                ctx.ob("R18.6", "overrides-passed-through", direct and not narrowed,
+                       "the override map handed to PackageResolver::new reaches FileSystemPackageResolver::new unchanged" if direct and not narrowed else
+                       "the override map is %s before it reaches the file-system resolver: an override that should be an error (missing path) silently disappears and another copy of the package is used"
+                       % ("narrowed by " + "/".join(narrowed) if narrowed else "rebuilt (%s)" % "/".join(rebuilt)), site="%s in %s" % (t.span, f.id))
     # whatever is left is reported as unknown
     okl = False
     for f in outer:
